@@ -287,8 +287,8 @@ impl Oracle for SboOracle {
             self.fp = mix(&[self.fp, 900 + step.connected as u64]);
         }
         let sent = match &step.sent {
-            Some(s) => s.clone(),
-            None => {
+            Some(s) if step.link_up => s.clone(),
+            _ => {
                 if let Op::Sleep(_) | Op::SleepRel { .. } = step.op {
                     self.fp = mix(&[self.fp, 901]);
                 }
